@@ -132,6 +132,17 @@ def history(rng, mode=None, cfg=None, state=None, nops=None, family="mixed"):
             ops.append({"op": rng.choice(["listRules", "getRule"]), "loc": loc, "id": rid(loc)})
         else:
             ops.append({"op": "event", "loc": loc, "event": {"a": 1}})
+    if not plain and rng.random() < 0.2:
+        # directed: an ordinary (event) rule is stored under an id; a scheduled rule under the same id is REFUSED by the add hook
+        # (a schedule the cron cannot take) -- through AddRule or as a fact carrying a rule; the stored rule must go on being
+        # dispatched, found and listed exactly as before the refused add (memory, both indexes and storage untouched)
+        loc = rng.choice(locs)
+        i = rid(loc)
+        bad = sched_rule(rng, locs, simple=True)
+        bad["schedule"] = 5        # (not a string: the refusal the hook machine models; what cronexpr accepts is not modelled)
+        refused = {"op": "addRule", "loc": loc, "id": i, "rule": bad} if rng.random() < 0.6 else {"op": "addFact", "loc": loc, "id": i, "fact": {"rule": bad, "k": 1}}
+        ops += [{"op": "addRule", "loc": loc, "id": i, "rule": when_rule(rng)}, {"op": "event", "loc": loc, "event": {"a": 1}}, refused,
+                {"op": "event", "loc": loc, "event": {"a": 1}}, {"op": "getRule", "loc": loc, "id": i}, {"op": "listRules", "loc": loc, "id": i}]
     if expiry and expiring:
         # everything added so far with expiresIn=2 is past its time after this sleep, whatever the second boundaries
         cut = rng.randint(max(1, len(ops) // 2), len(ops))
